@@ -5,7 +5,7 @@
     signer set to carry it, [key_witness]: a signature address of the transaction belongs to a
     stored, non-revoked key with authentication rights).  All theorems quantify over every
     encodeID / VerifyID / AddressFromPubKey function, every start state where stated, every
-    history (list of events = signer set + call) and every identity. *)
+    history (list of events = old/new code path + signer set + call) and every identity. *)
 From Coq Require Import List Bool NArith.
 Import ListNotations.
 From Ont Require Import Model.OntId Model.OntIdSpec Proofs.OntId.
@@ -77,14 +77,14 @@ Section C45.
     let s := run init_state h in
     ~ registered s j ->
     ~ key_witness addr_of s sg j /\
-    (forall o, r_ctrl (s (target o)) = Some (CSingle j) -> required o = AController ->
-               step id_ok id_valid addr_of s sg o = None) /\
+    (forall o lg, r_ctrl (s (target o)) = Some (CSingle j) -> required o = AController ->
+                  step id_ok id_valid addr_of lg s sg o = None) /\
     (forall g, (forall x, In x (leaves g) -> ~ registered s x) -> vacuous g = false ->
                ~ group_witnessed addr_of s sg g).
   Proof.
     intros h sg j s Hj. pose proof (inv_reachable id_ok id_valid addr_of h) as Hi.
     split; [apply inv_no_witness; assumption|]. split.
-    - intros o Hc Hr. eapply dead_controller_refuses; eauto.
+    - intros o lg Hc Hr. eapply dead_controller_refuses; eauto.
     - intros g Hl Hv. apply dead_group_not_witnessed; assumption.
   Qed.
 End C45.
@@ -109,7 +109,7 @@ Definition c45_literal_statement : Prop :=
 
 (** identity 1 registered with the controller "0 of no members" by an unsigned transaction *)
 Definition c45_witness_history : list event :=
-  [ mkEv [] (RegIdWithController 1 (mkCtrlArg 9 (Some (G [] 0))) (mkProof None (Some []))) ].
+  [ mkEv false [] (RegIdWithController 1 (mkCtrlArg 9 (Some (G [] 0))) (mkProof None (Some []))) ].
 
 Theorem c45_literal_refuted : ~ c45_literal_statement.
 Proof.
@@ -118,7 +118,7 @@ Proof.
   cbn [c45_witness_history trace] in H.
   specialize (H _ _ _ (or_introl eq_refl)).
   assert (Ha : accepted (fun _ => true) (fun i => i <? 5) (fun k => k) init_state
-                 (mkEv [] (RegIdWithController 1 (mkCtrlArg 9 (Some (G [] 0))) (mkProof None (Some [])))))
+                 (mkEv false [] (RegIdWithController 1 (mkCtrlArg 9 (Some (G [] 0))) (mkProof None (Some [])))))
     by (vm_compute; discriminate).
   specialize (H Ha). vm_compute in H. destruct H as [j [[] _]].
 Qed.
@@ -144,19 +144,19 @@ Print Assumptions c45_literal_partial.
     which it cannot be registered again and identity 1 can no longer be changed through it.
     Theorem 1 applies to the accepted steps (their records change), theorem 3 to the last ones. *)
 Definition c45_example_history : list event :=
-  [ mkEv [100] (RegIdWithPublicKey 0 (BKey 100));
-    mkEv [100] (AddKeyByIndex 0 (BKey 101) 1);
-    mkEv [101] (AddAttributesByIndex 0 (Some [(1, 1)]) 2);        (* refused: key #2 has no authentication rights *)
-    mkEv [100] (RegIdWithController 1 (mkCtrlArg 0 None) (mkProof (Some 1) None));
-    mkEv [100] (AddNewAuthKeyByController 1 (BKey 102) (mkProof (Some 1) None));
-    mkEv [999] (AddNewAuthKeyByController 1 (BKey 103) (mkProof (Some 1) None)); (* refused: not witnessed *)
-    mkEv [100] (RevokeID 0 1);
-    mkEv [100] (RegIdWithPublicKey 0 (BKey 100));                 (* refused: revoked for ever *)
-    mkEv [100] (AddNewAuthKeyByController 1 (BKey 103) (mkProof (Some 1) None)) ]. (* refused: controller revoked *)
+  [ mkEv false [100] (RegIdWithPublicKey 0 (BKey 100));
+    mkEv false [100] (AddKeyByIndex 0 (BKey 101) 1);
+    mkEv false [101] (AddAttributesByIndex 0 (Some [(1, 1)]) 2);        (* refused: key #2 has no authentication rights *)
+    mkEv false [100] (RegIdWithController 1 (mkCtrlArg 0 None) (mkProof (Some 1) None));
+    mkEv false [100] (AddNewAuthKeyByController 1 (BKey 102) (mkProof (Some 1) None));
+    mkEv false [999] (AddNewAuthKeyByController 1 (BKey 103) (mkProof (Some 1) None)); (* refused: not witnessed *)
+    mkEv false [100] (RevokeID 0 1);
+    mkEv false [100] (RegIdWithPublicKey 0 (BKey 100));                 (* refused: revoked for ever *)
+    mkEv false [100] (AddNewAuthKeyByController 1 (BKey 103) (mkProof (Some 1) None)) ]. (* refused: controller revoked *)
 
 Example c45_nonvacuous :
   let tr := trace (fun _ => true) (fun i => i <? 5) (fun k => k) init_state c45_example_history in
-  map (fun x => match step (fun _ => true) (fun i => i <? 5) (fun k => k)
+  map (fun x => match step (fun _ => true) (fun i => i <? 5) (fun k => k) false
                            (fst (fst x)) (e_signers (snd (fst x))) (e_op (snd (fst x))) with
                 | Some _ => true | None => false end) tr
   = [true; true; false; true; true; false; true; false; false] /\
